@@ -113,6 +113,14 @@ def single_node_part(prop, oprop, tier, rng, out, known, cov):
                 continue
             co.append((c, o))
             kinds_hist[kind] = kinds_hist.get(kind, 0) + 1
+            feat = cov.setdefault("schedule_features", {})
+            for name, present in (("mix", any(a[0] == "mix" for a in c["actions"])), ("consumer_reaction", bool(c.get("react"))),
+                                  ("failing_consumer", any(a[0] == "ackfail" for a in c["actions"])),
+                                  ("failing_user_function", bool(c["node"].get("userfail"))),
+                                  ("burst_seq_chain", any(a[0] in ("burst", "seq", "chain") for a in c["actions"])),
+                                  ("sink_" + str(c.get("sink")), True)):
+                if present:
+                    feat[name] = feat.get(name, 0) + 1
             if any(ob["deliv"] for ob in o[1:]):
                 nontriv.add(json.dumps(c, sort_keys=True))
             for (p, sig, msg) in (asyncoracle.check_failed(c, o) if faulty else oracle(oprop, c, o)):
